@@ -1,5 +1,5 @@
 SPECIFICATION TraceSpec
 CONSTRAINT HighWater
-INVARIANTS Inv_Model Inv_NoPanic Inv_VarsJSONValid Inv_Extracted Inv_Forwarded Inv_TwinForwarded Inv_FormsAgree Inv_AbsentStaysAbsent Inv_NullStaysNull Inv_CompanionPreserved
+INVARIANTS Inv_Model Inv_NoPanic Inv_VarsJSONValid Inv_Extracted Inv_Forwarded Inv_TwinForwarded Inv_FormsAgree Inv_AbsentStaysAbsent Inv_NullStaysNull Inv_CompanionPreserved Inv_Reaches
 POSTCONDITION TraceAccepted
 CHECK_DEADLOCK FALSE
